@@ -163,6 +163,11 @@ def install(world):
     def b_list(it, node, x=()):
         if isinstance(x, MList):
             x = x.seq
+        if isinstance(x, S.SIter):
+            rest = x.remaining()
+            x.pos = x.seq.length
+            return MList(SSeq(rest.length, rest.arr, rest.elem, rest.off,
+                              kind='list'))
         if isinstance(x, SSeq):
             return MList(SSeq(x.length, x.arr, x.elem, x.off, x.step,
                               kind='list'))
@@ -319,6 +324,15 @@ def install(world):
     reg('iter', b_iter, True)
 
     def b_next(it, node, x, *d):
+        if isinstance(x, S.SIter):
+            # pull one element, or StopIteration when exhausted
+            if it.branch(x.pos < x.seq.length):
+                v = x.seq.get(x.pos)
+                x.pos = z3.simplify(x.pos + 1)
+                return v
+            if d:
+                return d[0]
+            it.raise_('StopIteration', node=node)
         if hasattr(x, '__next__') and not S.is_sym(x):
             try:
                 return next(x)
@@ -462,14 +476,12 @@ def install(world):
         if lo is None:
             lo = 0
         if isinstance(x, S.SIter):
-            # islice pulls min(hi, remaining) elements from the iterator
-            if lo != 0:
-                raise Unsupported('islice with start on an iterator')
+            # a lazy view: nothing is pulled until the view is pulled
             rest = x.remaining()
-            taken = it.slice(rest, 0, hi, None, node)
-            x.pos = z3.simplify(x.pos + taken.length)
-            taken.kind = 'iter'
-            return taken
+            view = it.slice(rest, lo, hi, None, node)
+            view.kind = 'iter'
+            return S.SIter(view, parent=x, lo=S.clamp_index(
+                TInt.unwrap(lo), rest.length))
         return it.slice(_as_seq(world, it, x), lo, hi, None, node)
     world.lib[('itertools', 'islice')] = Model('itertools.islice', it_islice,
                                                True)
@@ -497,6 +509,25 @@ def install(world):
                         kind='iter')
         raise Unsupported('map over %r' % (xs,))
     reg('map', b_map, True)
+
+    def lazy_uf(name):
+        def f(it, node, *a, **kw):
+            world.trusted_used.add('%s (T-lazy, uninterpreted)' % name)
+            extra = tuple(kw[k] for k in sorted(kw))
+            sym = name + ''.join('$' + k for k in sorted(kw))
+            r = apply_uf(sym, tuple(a) + extra, 'Val')
+            it.calls.append((sym, tuple(a) + extra, r))
+            return r
+        return f
+    for nm in ('takewhile', 'dropwhile', 'cycle', 'repeat', 'count',
+               'zip_longest'):
+        world.lib[('itertools', nm)] = Model('itertools.' + nm,
+                                             lazy_uf('itertools.' + nm), True)
+    world.lib[('functools', 'reduce')] = Model(
+        'functools.reduce', lazy_uf('functools.reduce'), True)
+    reg('filter', lazy_uf('py.filter'), True)
+    reg('reversed', lazy_uf('py.reversed'), True)
+    reg('sorted', lazy_uf('py.sorted'), True)
 
     def it_chain(it, node, *xs):
         from .world import IterSpec
@@ -570,6 +601,10 @@ def _box_any(x):
         f = uf('pydict:' + ','.join(keys), *([S.Val] * len(keys) + [S.Val]))
         return f(*[_box_any(x[k]) for k in keys]) if keys else \
             z3.Const('pydict:empty', S.Val)
+    if isinstance(x, list):
+        f = uf('pylist/%d' % len(x), *([S.Val] * len(x) + [S.Val]))
+        return f(*[_box_any(v) for v in x]) if x else \
+            z3.Const('pylist:empty', S.Val)
     if isinstance(x, tuple):
         f = uf('pytuple/%d' % len(x), *([S.Val] * len(x) + [S.Val]))
         return f(*[_box_any(v) for v in x]) if x else \
@@ -986,6 +1021,12 @@ def apply_uf(name, args, ret='Val'):
         if isinstance(a, (dict, tuple)):
             terms.append(S.box_any(a))
             sorts.append(S.Val)
+            continue
+        if isinstance(a, S.SIter):
+            q = a.seq
+            terms += [q.arr, z3.simplify(q.off + a.pos),
+                      z3.simplify(q.length - a.pos)]
+            sorts += [q.arr.sort(), z3.IntSort(), z3.IntSort()]
             continue
         if t is None or isinstance(t, TSeq):
             if isinstance(a, (SSeq, MList)):
